@@ -20,6 +20,7 @@ def build(tier: str, rng: random.Random):
             sc = calcheck.to_script(o, base, seed=rng.randrange(1, 10**6),
                                     saving=(rng.random() < 0.5) if base["kind"] == "rr" else False)
             sc["fault_base"] = rng.random() < 0.3       # the plug-in is interrupted (a BaseException that is not an Exception)
+            sc["fault_type"] = rng.choice(["runtime", "value", "key"])      # ... or fails with an exception of another common type
             scripts.append(sc)
     return scripts, n
 
